@@ -21,6 +21,7 @@ type verifPayWorld struct {
 	paid    map[store.Account]*big.Int
 	calls   int
 	inside  int // settle calls in flight
+	settled int // successful settlements
 	overlap bool
 }
 
@@ -54,6 +55,7 @@ func verifNewPayWorld() *verifPayWorld {
 		}
 		w.paid[account].Add(w.paid[account], amount)
 		w.dep.Deposit[account] = new(big.Int).Set(newBalance)
+		w.settled++
 		return "tx", nil
 	}
 	return w
@@ -244,3 +246,57 @@ func VerifC07RealProxy() {
 		verifapi.Assert(read() == 0, "c07.proxy-nothing-left")
 	}
 }
+
+// VerifC07Trial: earnings that start on a trial balance: a node earns credit
+// before any wallet claims it, is linked with a signed pool_addNode, the
+// wallet withdraws, the node earns again and is linked a second time (to the
+// same or to another wallet), and both wallets withdraw. Every unit earned is
+// paid out at most once: what was paid (plus fees) and what is still owed add
+// up to exactly what was earned. Runs on both drivers.
+func VerifC07Trial() {
+	w := verifNewPayWorld()
+	verifapi.SetNow(verifapi.Time("t0"))
+	node := store.NodeID(verifapi.NodeID(0))
+	wals := []store.Account{store.Account(verifapi.Wallet(0)), store.Account(verifapi.Wallet(1))}
+	for _, a := range wals {
+		w.dep.Deposit[a] = new(big.Int)
+	}
+	w.db.SetNode(store.Node{ID: node, IsHost: true})
+	e1, e2 := verifapi.BigInt("earn1"), verifapi.BigInt("earn2")
+	verifapi.Assume(e1.Sign() > 0 && e2.Sign() >= 0)
+	earned := new(big.Int).Add(e1, e2)
+	link := func(a store.Account) {
+		nonce := pool.VerifFreshNonce()
+		err := w.pay.AddNode(context.Background(), sigs.SignFor(string(a), "pool_addNode", nonce, string(node)), string(a), nonce, string(node))
+		verifapi.Assert(err == nil, "c07.trial.link-accepted")
+	}
+	settled := new(big.Int) // credit taken off the ledger by successful withdrawals
+	withdraw := func(a store.Account) {
+		before, _ := w.db.GetAccountBalance(a)
+		if err := w.withdraw(a, true); err == nil {
+			after, _ := w.db.GetAccountBalance(a)
+			settled.Add(settled, new(big.Int).Sub(&before.Credit, &after.Credit))
+		}
+	}
+	w.db.AddNodeBalance(node, e1) // trial earnings
+	link(wals[0])
+	withdraw(wals[0])
+	w.db.AddNodeBalance(node, e2) // more earnings, now on the wallet
+	link(wals[verifapi.Choose("relink", 2)])
+	withdraw(wals[0])
+	withdraw(wals[1])
+	verifapi.Reach("c07.trial")
+	remaining := pool.VerifTotalCredit(w.db, []store.NodeID{node}, wals)
+	verifapi.Assert(new(big.Int).Add(settled, remaining).Cmp(earned) == 0, "c07.trial.every-unit-earned-is-settled-at-most-once")
+	// what the wallets received is what was settled, minus one fee per payment
+	paid := new(big.Int)
+	for _, a := range wals {
+		if w.paid[a] != nil {
+			paid.Add(paid, w.paid[a])
+		}
+	}
+	fees := new(big.Int).Mul(w.fee, big.NewInt(int64(verifSuccessfulSettles(w))))
+	verifapi.Assert(new(big.Int).Add(paid, fees).Cmp(settled) == 0, "c07.trial.paid-is-settled-credit-minus-fee")
+}
+
+func verifSuccessfulSettles(w *verifPayWorld) int { return w.settled }
